@@ -10,12 +10,24 @@ import (
 
 func genIso(rt *rapid.T, thorough bool) *harness.IsoProgram {
 	params := harness.GenParams{MaxItems: 4, MaxOps: 8, MaxPages: 256, NoFill: true}
+	// a quarter of the scenarios: a small bounded file that is completely full, committed overwrites whose
+	// write-ahead pages live in the overflow area, writers that use the overflow area and often abort
+	// (rollback truncates the file while readers are active)
+	full := rapid.IntRange(0, 3).Draw(rt, "fullFile") == 0
+	if full {
+		params = harness.GenParams{MaxItems: 4, MaxOps: 8, MaxPages: 96, Bounded: 1, Overflow: true, AbortHeavy: true}
+	}
 	p := &harness.IsoProgram{Cfg: harness.GenConfig(rt, params)}
 	// prefix: make sure there are written pages
 	p.Prefix = append(p.Prefix, harness.Item{Tx: &harness.Tx{Ops: []harness.Op{
 		{K: harness.OpAlloc, A: rapid.IntRange(3, 14).Draw(rt, "n")}, {K: harness.OpWriteMany, A: 0, B: 0},
 		{K: harness.OpWrite, A: 0, C: 3}, {K: harness.OpWrite, A: 1, C: 4}, {K: harness.OpWrite, A: 2, C: 5}, {K: harness.OpSetRoot, A: 0},
 	}, End: harness.EndCommit}})
+	if full {
+		p.Prefix = append(p.Prefix,
+			harness.Item{Tx: &harness.Tx{Ops: []harness.Op{{K: harness.OpFill, A: 0}}, End: harness.EndCommit}},
+			harness.Item{Tx: &harness.Tx{Overflow: true, Ops: []harness.Op{{K: harness.OpWriteMany, A: rapid.IntRange(0, 20).Draw(rt, "opick"), B: rapid.IntRange(1, 6).Draw(rt, "ocnt"), C: 77}}, End: harness.EndCommit}})
+	}
 	extra := rapid.SliceOfN(rapid.Custom(func(t *rapid.T) harness.Item { return harness.Item{Tx: harness.GenTx(t, params)} }), 0, 3).Draw(rt, "prefix")
 	p.Prefix = append(p.Prefix, extra...)
 	nr := rapid.IntRange(1, 4).Draw(rt, "rounds")
